@@ -54,6 +54,8 @@ def specs(tier, seed):
     se2b["vertices"][0]["pose"][2] = 0.0
     se2b["vertices"][1]["fixed"] = True
     se2b["edges"] = [se2["edges"][0], {"type": "numodo", "ids": [1, 0], "z": [-0.5, 0.7, -3.0], "om": A.spd(3, seed, "f")}, {"type": "numlm", "ids": [1, 2], "z": [-0.3, 0.2], "off": [0.0, 0.0, 0.0], "om": A.spd(2, seed, "g")}]
+    # an SE(2) landmark offset that is the identity only up to round-off (c.inverse + c): not expressible in .g2o, export must not touch it
+    se2b["edges"].append({"type": "lm", "ids": [1, 2], "z": [0.1, 0.2], "off": [5.6e-17, -5.6e-17, 0.0], "om": A.spd(2, seed, "g2")})
     out.append(("se2b", se2b))
     se3 = {
         "vertices": [
@@ -217,7 +219,7 @@ def twin(w):
 
 
 # ------------------------------------------------------------------------------------------ operation alphabet
-POSE_UNARY = ["inverse", "copy", "to_array", "to_compact", "position", "orientation", "jacobian_boxplus", "jacobian_inverse", "copy_mutate", "box_small", "box_big", "to_array_scribble", "to_compact_scribble", "held", "add_identity_scribble", "box_zero_scribble", "sub_identity_scribble"]
+POSE_UNARY = ["inverse", "copy", "to_array", "to_compact", "position", "orientation", "jacobian_boxplus", "jacobian_inverse", "copy_mutate", "box_small", "box_big", "to_array_scribble", "to_compact_scribble", "held", "add_identity_scribble", "box_zero_scribble", "sub_identity_scribble", "position_scribble", "identity_scribble"]
 POSE_BINARY = [
     "add", "sub", "iadd",
     "jacobian_self_oplus_other_wrt_self", "jacobian_self_oplus_other_wrt_self_compact", "jacobian_self_oplus_other_wrt_other", "jacobian_self_oplus_other_wrt_other_compact",
@@ -375,6 +377,23 @@ def apply_op(w, op, tmpdir):
                     keep = np.array(r, copy=True)
                     r[0] += 2.5
                     return keep
+                return _safe(f)
+            if u == "position_scribble":
+                # a caller finishes its computation IN the array handed out by .position (err = p.position; err -= z)
+                def f():
+                    r = p.position
+                    keep = np.array(r, copy=True)
+                    r -= 0.75
+                    return keep
+                return _safe(f)
+            if u == "identity_scribble":
+                # identity() hands out independent poses: writing into one does not change what the next call returns
+                def f():
+                    a_ = type(p).identity()
+                    ref_ = np.array(a_, copy=True)
+                    a_[0] = 0.5
+                    b_ = type(p).identity()
+                    return ("held_unchanged", bool(np.array_equal(np.asarray(b_), ref_)), ref_)
                 return _safe(f)
             if u == "held":
                 def f():
